@@ -563,14 +563,14 @@ def judge(case, obs):
         if o[0] != e["line"]:
             d = o[0] - e["line"]
             lead, tagoff = e["lead"], e["tagoff"]
-            if tagoff and d == -tagoff and ext == "babel":
-                sig = "babel:line:tag-attribute-on-later-line (reported at the line of '<%tag')"
+            if tagoff and d == -tagoff:
+                sig = "%s:line:tag-attribute-on-later-line (reported at the line of '<%%tag')" % ext
             elif ext == "lingua" and tagoff == 0 and lead == 0 and d == -1:
                 sig = "lingua:line:delta=-1"
             elif ext == "lingua" and tagoff == 0 and lead > 0 and d == -1 - lead:
                 sig = "lingua:line:delta=-1-lead (blank lines at the head of the code are stripped)"
             elif ext == "lingua" and tagoff and d == -1 - tagoff:
-                sig = "lingua:line:tag-attribute-on-later-line (delta=-1-offset)"
+                sig = "lingua:line:tag-attribute-on-later-line+delta=-1"
             else:
                 sig = "%s:line:%s:delta=%+d:lead=%d:tagoff=%d" % (ext, where, d, lead, tagoff)
             viol.append((sig, "template line on which the call is written", e["line"], o[0]))
